@@ -430,8 +430,28 @@ func withoutOptional(pattern map[string]interface{}) map[string]interface{} {
 			v = withoutOptional(vv)
 		case Map:
 			v = withoutOptional(vv)
+		case []interface{}:
+			v = withoutOptionalIn(vv)
 		}
 		acc[k] = v
+	}
+	return acc
+}
+
+// withoutOptionalIn does the work of withoutOptional for the maps
+// that are elements of an array (at any depth).
+func withoutOptionalIn(xs []interface{}) []interface{} {
+	acc := make([]interface{}, len(xs))
+	for i, x := range xs {
+		switch vv := x.(type) {
+		case map[string]interface{}:
+			x = withoutOptional(vv)
+		case Map:
+			x = withoutOptional(vv)
+		case []interface{}:
+			x = withoutOptionalIn(vv)
+		}
+		acc[i] = x
 	}
 	return acc
 }
